@@ -835,7 +835,7 @@ theorem checkStep_model (W : Spec → Leaves) (F : Faults) (st : Store H T) (str
       (obsOf (pass hash render (W st.spec) F st)) = [] := by
   unfold checkStep
   simp only [List.append_eq_nil_iff, clause_nil, obsOf]
-  refine ⟨⟨⟨⟨⟨⟨⟨⟨?_, ?_⟩, ?_⟩, ?_⟩, ?_⟩, ?_⟩, ?_⟩, ?_⟩, ?_⟩
+  refine ⟨⟨⟨⟨⟨⟨⟨⟨⟨?_, ?_⟩, ?_⟩, ?_⟩, ?_⟩, ?_⟩, ?_⟩, ?_⟩, ?_⟩, ?_⟩
   · -- invalid-rolled-out
     cases hp : F.pull with
     | true => simp [invalid_no_deployment_change hash render (W st.spec) F st (.inl hp)]
@@ -873,6 +873,19 @@ theorem checkStep_model (W : Spec → Leaves) (F : Faults) (st : Store H T) (str
           | true =>
             rw [clean_eq F hc]
             simp [(unmet_constraint_invalid_persisted hash render (W st.spec) st hr hl hu).1]
+  · -- invalid-hash-not-recorded
+    by_cases hr : st.status.unpackedHash = some (hash st.spec)
+    · simp [hr]
+    · cases hc : clean F with
+      | false => simp
+      | true =>
+        rw [clean_eq F hc]
+        cases hl : (W st.spec).load with
+        | false => simp [(load_failure_invalid_persisted hash render (W st.spec) st hr hl).2.2]
+        | true =>
+          cases hu : constraintsUnmet (W st.spec) with
+          | false => simp
+          | true => simp [(unmet_constraint_invalid_persisted hash render (W st.spec) st hr hl hu).2.2]
   · -- unchanged-spec-touched
     by_cases hr : st.status.unpackedHash = some (hash st.spec)
     · obtain ⟨a, b, c, _, e⟩ := unchanged_spec_left_alone hash render (W st.spec) F st hr
